@@ -31,6 +31,14 @@ Proof.
 Qed.
 
 (* ------------------------------------------------------------------ for _, n := range node.F { v.visit(n) } *)
+(* the visits of a list of nodes, one after the other, each in the error state the previous one left *)
+Fixpoint seq_ok (c : cconfig) (rec : list ty -> expr -> cst -> option (ty * expr * cst))
+    (cols : list ty) (es : list expr) (st : cst) : Prop :=
+  match es with
+  | [] => True
+  | x :: r => rec cols x st = Some (visit c cols x st) /\ seq_ok c rec cols r (snd (visit c cols x st))
+  end.
+
 Section VisitLoop.
 Variable c : cconfig.
 Variable M : sem.
@@ -57,7 +65,7 @@ Lemma visit_loop : forall rest pre pre' en cur cols er k,
   get_list self f = Some (pre ++ rest) ->
   List.length pre' = List.length pre ->
   get_list cur f = Some (pre' ++ rest) ->
-  (forall x, In x rest -> forall cols st, rec cols x st = Some (visit c cols x st)) ->
+  seq_ok c rec cols rest er ->
   range_loop visit_body (List.length rest) (List.length pre) (mkG en cur cols er) k =
   let '(rest', er') := CheckProofs.vlist c cols rest er in
   k (RNormal (mkG en (set_list cur f (pre' ++ rest')) cols er')).
@@ -70,8 +78,8 @@ Proof.
     destruct Hen as [Hupd Hres].
     cbn [eval bind_var set_env g_env]. rewrite Hupd. cbn [lookup_var]. rewrite Nat.eqb_refl.
     cbn [get_node]. rewrite Hself, nth_error_mid.
-    cbn [g_cols g_err]. rewrite (Hrec x (or_introl eq_refl)).
-    destruct (visit c cols x er) as [[t x'] er1].
+    cbn [g_cols g_err]. cbn [seq_ok] in Hrec. destruct Hrec as [Hx Hr]. rewrite Hx.
+    destruct (visit c cols x er) as [[t x'] er1] eqn:V. cbn [snd] in Hr.
     cbn [set_node g_cur set_cur set_err]. rewrite Hcur, <- Hlen, set_nth_mid.
     cbn [bind_var set_env g_env].
     rewrite exec_list_nil. cbn [end_iteration restore_env g_env set_env]. rewrite Hres.
@@ -80,8 +88,7 @@ Proof.
     assert (Hcur' : get_list (set_list cur f (pre' ++ x' :: r)) f = Some ((pre' ++ [x']) ++ r)).
     { rewrite <- app_cons_assoc. eapply get_set_list. exact Hcur. }
     specialize (IH (pre ++ [x]) (pre' ++ [x']) en
-                   (set_list cur f (pre' ++ x' :: r)) cols er1 k (conj Hupd Hres) Hself Hlen' Hcur'
-                   (fun y Hy => Hrec y (or_intror Hy))).
+                   (set_list cur f (pre' ++ x' :: r)) cols er1 k (conj Hupd Hres) Hself Hlen' Hcur' Hr).
     rewrite length_snoc in IH. rewrite Hlen. rewrite IH.
     destruct (CheckProofs.vlist c cols r er1) as [r' er2].
     rewrite set_set_list, <- app_cons_assoc. reflexivity.
